@@ -2,18 +2,19 @@
 # build_inst.sh <id>: instrument the repo packages for scheduler harness <id>.
 # Output: build/inst-<id>/map.json (overlay fragment: rewritten files + shim packages).
 set -u
-cd /verif || exit 2
+ROOT="${VERIF_ROOT:-/verif}"
+cd "$ROOT" || exit 2
 export GOFLAGS=-mod=mod GOPROXY=off
 id="$1"
-out="/verif/build/inst-$id"
+out="$ROOT/build/inst-$id"
 mkdir -p "$out" build/bin
 if [ ! -x build/bin/vinst ] || [ tools/vinst/main.go -nt build/bin/vinst ]; then
-  (cd tools/vinst && go build -o /verif/build/bin/vinst .) || exit 2
+  (cd tools/vinst && go build -o "$ROOT/build/bin/vinst" .) || exit 2
 fi
 EXTRA=()
 [ -n "${VERIF_EXTRA_OVERLAY:-}" ] && EXTRA+=("$VERIF_EXTRA_OVERLAY")
-python3 lib/mkoverlay.py --out-dir "build/rw-$id" "${EXTRA[@]}" > "$out/base.json" || exit 2
+python3 lib/mkoverlay.py --out-dir "$ROOT/build/rw-$id" "${EXTRA[@]}" > "$out/base.json" || exit 2
 rm -f "$out"/*.go
 PKGS="./common/... ./server/... ./coordinator/... ./oxia/..."
 [ -f "h/$id/INSTRUMENT" ] && [ -s "h/$id/INSTRUMENT" ] && PKGS=$(cat "h/$id/INSTRUMENT")
-build/bin/vinst -out "$out" -overlay "$out/base.json" $PKGS 2> "$out/vinst.log" || { cat "$out/vinst.log" >&2; exit 2; }
+build/bin/vinst -shims "$ROOT/shim" -out "$out" -overlay "$out/base.json" $PKGS 2> "$out/vinst.log" || { cat "$out/vinst.log" >&2; exit 2; }
